@@ -33,8 +33,8 @@ func (o *dialTptAddrResolver) Resolve(ctx context.Context, handler directive.Res
 	}
 
 	tptPeerID := tpt.GetPeerID()
-	if srcPeerID := o.dir.DialTptAddrSourcePeerId(); srcPeerID != tptPeerID {
-		// tpt peer id mismatch
+	if srcPeerID := o.dir.DialTptAddrSourcePeerId(); srcPeerID != "" && srcPeerID != tptPeerID {
+		// tpt peer id mismatch (an empty source peer id allows any)
 		return nil
 	}
 
